@@ -73,7 +73,16 @@ pub fn int_of_src(s: &Src, q: &BigUint) -> BigUint {
     }
 }
 
-pub const NCHAIN_OPS: u8 = 6;
+pub const NCHAIN_OPS: u8 = 11;
+
+/// small multiplier that chain op 6 derives from its operand (the low 32 bits of its integer value, or one of the extreme
+/// multipliers; 16 bits for GFsecp256k1, whose mul_small takes a u16-sized value)
+pub fn chain_small_mult(y: &BigUint, q: &BigUint) -> u32 {
+    let lo = (y & BigUint::from(0xFFFF_FFFFu32)).to_u32_digits().first().copied().unwrap_or(0);
+    let c = match lo % 4 { 0 => 0xFFFF_FFFF, 1 => 0xFFFF_FFFF - (lo >> 8) % 16, _ => lo };
+    let secp: BigUint = (BigUint::one() << 256usize) - (BigUint::one() << 32usize) - 977u32;
+    if *q == secp { c & 0xFFFF } else { c }
+}
 
 /// reference value of a chain step
 pub fn chain_step_int(x: &BigUint, op: u8, y: &BigUint, q: &BigUint) -> BigUint {
@@ -83,7 +92,13 @@ pub fn chain_step_int(x: &BigUint, op: u8, y: &BigUint, q: &BigUint) -> BigUint 
         2 => pf::mul(x, y, q),
         3 => pf::neg(x, q),
         4 => pf::add(x, x, q),
-        _ => pf::sub(y, x, q),
+        5 => pf::sub(y, x, q),
+        // unary operations that leave other internal limb ranges than + - * do
+        6 => pf::mul(x, &BigUint::from(chain_small_mult(y, q)), q),
+        7 => pf::mul(x, &BigUint::from(2u32 << (chain_small_mult(y, q) % 5)), q),
+        8 => pf::mul(x, x, q),
+        9 => pf::half(x, q),
+        _ => pf::mul(x, &BigUint::from(3u32), q),
     }
 }
 
@@ -105,7 +120,7 @@ pub fn src_is_raw_big(s: &Src, q: &BigUint) -> bool {
     }
 }
 
-fn limbs_of(x: &BigUint, n: usize) -> Vec<u64> {
+pub fn limbs_of(x: &BigUint, n: usize) -> Vec<u64> {
     let m = BigUint::one() << (64 * n);
     pf::to_limbs_le(&(x % &m), n)
 }
